@@ -545,6 +545,10 @@ type convRun struct {
 	// entryReader: Reader.OnContinuation. contNil: not set; contNoop: set, reads nothing; k >= 1: reads the
 	// first k bytes of every continuation body with io.ReadFull (contAll: the whole body).
 	cont int
+	// entryReader: indices (>= 1) of frames at whose first byte the transport returns
+	// (0, tx.ErrTransient) once - a read deadline firing between two frames; the reading
+	// loop retries. Never combined with discard.
+	stall []int
 }
 
 const (
@@ -564,14 +568,17 @@ type convCase struct {
 	EOFWD   bool        `json:"eof_with_data,omitempty"`
 	Discard map[int]int `json:"discard_after,omitempty"`
 	Cont    int         `json:"on_continuation_reads,omitempty"`
+	Stall   []int       `json:"transient_error_before_frames,omitempty"`
 }
 
 func (c convRun) desc() convCase {
-	return convCase{ref.Describe(c.frames), c.server, entryNames[c.entry], c.chunks, c.bufs, c.eofWD, c.discard, c.cont}
+	return convCase{ref.Describe(c.frames), c.server, entryNames[c.entry], c.chunks, c.bufs, c.eofWD, c.discard, c.cont, c.stall}
 }
 
 type convStats struct {
 	delivered, rejectedEarly, rejectedAtEnd, discarded int
+	retries           int // reads retried after tx.ErrTransient
+	stayedFailed      int // open: after a transient error the reader ended with a transport-type error
 }
 
 func isData(op ws.OpCode) bool { return op == ws.OpText || op == ws.OpBinary }
@@ -592,6 +599,14 @@ func runConversation(c convRun, st *convStats) string {
 	}
 	src := tx.NewSrc(wire, c.chunks)
 	src.EOFWithData = c.eofWD
+	if len(c.stall) > 0 {
+		src.StallAt = map[int]bool{}
+		for _, i := range c.stall {
+			src.StallAt[end[i-1]] = true // first byte of frame i
+		}
+	}
+	maxRetry := 2*len(c.stall) + 2
+	retried := 0
 	rec := tx.NewRec()
 	rd := &wsutil.Reader{Source: src, State: state, CheckUTF8: true}
 	// Bytes the OnContinuation handler takes from a continuation body are logged
@@ -648,6 +663,11 @@ func runConversation(c convRun, st *convStats) string {
 			var hdr ws.Header
 			for {
 				hdr, err = rd.NextFrame()
+				if err == tx.ErrTransient && retried < maxRetry {
+					retried++
+					st.retries++
+					continue
+				}
 				if err != nil {
 					return fmt.Sprintf("%s: NextFrame failed on a valid stream: %v", what, err)
 				}
@@ -687,6 +707,10 @@ func runConversation(c convRun, st *convStats) string {
 				case err == io.EOF:
 					err = nil
 					break read
+				case err == tx.ErrTransient && n == 0 && retried < maxRetry:
+					// nothing of the next frame was consumed: the caller tries again
+					retried++
+					st.retries++
 				case err != nil:
 					break read
 				case n == 0:
@@ -729,6 +753,12 @@ func runConversation(c convRun, st *convStats) string {
 		}
 		if src.Pos > msgEnd {
 			return fmt.Sprintf("%s: %d bytes consumed, the message ends at offset %d (verdict later than the end of the message)", what, src.Pos, msgEnd)
+		}
+		if src.Stalls > 0 && err != nil && err != wsutil.ErrInvalidUTF8 {
+			// One-directional after a transport hiccup: a reader that stays failed is
+			// not judged; only a success or an ErrInvalidUTF8 verdict must be right.
+			st.stayedFailed++
+			return ""
 		}
 		if valid {
 			if err != nil {
@@ -864,15 +894,24 @@ func everySplit(t *testing.T, payload []byte, seed int, count *int, st *convStat
 				if entry == entryReader && len(cuts) > 0 {
 					modes = contModes
 				}
-				for _, cont := range modes {
+				for mi, cont := range append(append([]int(nil), modes...), contNil) {
+					stalled := mi == len(modes) // last round: a transient error before every frame after the first
+					if stalled && !(entry == entryReader && len(cuts) > 0) {
+						continue
+					}
 					run := convRun{frames: fragment(op, payload, cuts, server, seed, ctl), server: server, entry: entry, cont: cont}
+					if stalled {
+						for i := 1; i < len(run.frames); i++ {
+							run.stall = append(run.stall, i)
+						}
+					}
 					if byteChunks {
 						run.chunks = []int{1}
 						run.bufs = []int{1, 3}
 					}
 					*count++
 					if op == ref.OpText && midSequenceCut(payload, cuts) {
-						noteMessage(payload, cuts, fmt.Sprintf("%s/server=%v/ctl=%v/bytewise=%v/oncont=%d", entryNames[entry], server, withCtl, byteChunks, cont))
+						noteMessage(payload, cuts, fmt.Sprintf("%s/server=%v/ctl=%v/bytewise=%v/oncont=%d/stalls=%v", entryNames[entry], server, withCtl, byteChunks, cont, stalled))
 					}
 					if msg := runConversation(run, st); msg != "" {
 						hx.Failf(t, run.desc(), "%s", msg)
@@ -890,6 +929,8 @@ func classesFromStats(prefix string, st *convStats) {
 	bulk(prefix+"/rejected-before-end-of-message", st.rejectedEarly)
 	bulk(prefix+"/rejected-at-end-of-message", st.rejectedAtEnd)
 	bulk(prefix+"/discarded-part-way", st.discarded)
+	bulk(prefix+"/reads-retried-after-transient-error", st.retries)
+	bulk("open/"+prefix+"/stayed-failed-after-transient-error", st.stayedFailed)
 }
 
 // Short payloads at every split point.
@@ -1017,14 +1058,27 @@ func TestMessageRandom(t *testing.T) {
 		if entry == entryReader {
 			run.cont = rapid.SampledFrom(contModes).Draw(t, "oncontinuation")
 		}
+		var stallMask uint64
+		if entry == entryReader && len(cuts) > 0 && rapid.Bool().Draw(t, "stalls?") {
+			stallMask = rapid.Uint64().Draw(t, "stallmask") | 1<<uint(rapid.IntRange(1, len(cuts)).Draw(t, "stallone"))
+		}
 		hx.Eval()
 		valid := utf8.Valid(payload)
 		mid := midSequenceCut(payload, cuts)
 		for _, op := range []byte{ref.OpText, ref.OpBinary} {
 			run.frames = fragment(op, payload, cuts, server, seed, ctl)
+			run.stall = nil
+			for i := 1; i < len(run.frames) && stallMask != 0; i++ {
+				if stallMask>>(uint(i)%64)&1 == 1 {
+					run.stall = append(run.stall, i)
+				}
+			}
 			var st convStats
 			if msg := runConversation(run, &st); msg != "" {
 				t.Fatalf("%s\ncase: %s", msg, hx.JSON(run.desc()))
+			}
+			if op == ref.OpText && len(run.stall) > 0 {
+				hx.Class(fmt.Sprintf("message/random/Reader/transient-errors-at-frame-starts/valid=%v/retries>0=%v/stayed-failed=%v", valid, st.retries > 0, st.stayedFailed > 0))
 			}
 			if op == ref.OpText {
 				out := "delivered"
@@ -1096,6 +1150,14 @@ func TestConversationRandom(t *testing.T) {
 				modes = contModes[:2]
 			}
 			run.cont = rapid.SampledFrom(modes).Draw(t, "oncontinuation")
+			if len(run.discard) == 0 && len(frames) > 1 && rapid.Bool().Draw(t, "stalls?") {
+				mask := rapid.Uint64().Draw(t, "stallmask")
+				for i := 1; i < len(frames); i++ {
+					if mask>>(uint(i)%64)&1 == 1 {
+						run.stall = append(run.stall, i)
+					}
+				}
+			}
 		}
 		hx.Eval()
 		var st convStats
